@@ -1,7 +1,7 @@
 #!/bin/bash
 # applies every archived seeded change to /repo in turn, runs the quick check of the property it breaks and expects a VIOLATION;
 # the working tree of /repo is restored after each one. Usage: vk/seed_regress.sh [seed ...]
-cd /verif; SEEDS=${@:-$(ls seeded)}
+cd /verif; mkdir -p out; SEEDS=${@:-$(ls seeded)}
 for sd in $SEEDS; do
   pid=$(python3 -c "import json; print(json.load(open('seeded/$sd/meta.json'))['property'])")
   git -C /repo apply seeded/$sd/patch.diff || { echo "$sd: patch does not apply"; continue; }
